@@ -384,3 +384,73 @@ Proof.
   - apply Rmult_le_reg_r with (10 ^ 10); [apply pow_lt; lra|]. unfold Rdiv. rewrite Rmult_assoc, Rinv_l by (apply pow_nonzero; lra). lra.
   - split; [exact sample_lyman_witness|]. unfold w_freq; cbn [nth]. lra.
 Qed.
+
+(* ---------------------------------------------------------------------------
+   MaskedPhotonSourceSpectrum: the cumulative table the constructor builds starts at 0, ends at 1 and is
+   non-decreasing, so every random number in (0, 1] is sampled inside the frequency bins *)
+Lemma mr_length : forall w acc, length (masked_running Rops acc w) = length w.
+Proof. induction w as [|x r IH]; intros acc; cbn [masked_running length]; [reflexivity | rewrite IH; reflexivity]. Qed.
+
+Lemma mr_adj : forall w acc i, (S i < length w)%nat ->
+  nth (S i) (masked_running Rops acc w) 0 = nth i (masked_running Rops acc w) 0 + nth i w 0.
+Proof.
+  induction w as [|x r IH]; intros acc i Hi; cbn [length] in Hi; [lia|].
+  destruct i as [|i].
+  - destruct r as [|y r']; cbn [length] in Hi; [lia|]. cbn [masked_running nth o_add Rops]. reflexivity.
+  - cbn [masked_running nth]. rewrite IH by lia. reflexivity.
+Qed.
+
+Lemma mr_first : forall w acc, (1 <= length w)%nat -> nth 0 (masked_running Rops acc w) 0 = acc.
+Proof. intros [|x r] acc H; cbn [length] in H; [lia|]. reflexivity. Qed.
+
+Lemma nth_map_R : forall (f : R -> R) l i, (i < length l)%nat -> nth i (map f l) 0 = f (nth i l 0).
+Proof. intros f l i Hi. rewrite (nth_indep (map f l) 0 (f 0)) by (rewrite map_length; exact Hi). apply map_nth. Qed.
+
+Lemma sample_masked_range_lemma : forall freq w x, length freq = length w -> (2 <= length w)%nat ->
+  Rsorted freq -> (forall i, (i < length w)%nat -> 0 <= nth i w 0) ->
+  0 < nth (length w - 1) (masked_running Rops 0 w) 0 -> 0 < x <= 1 ->
+  nth 0 (masked_cdf Rops w) 0 = 0 /\ nth (length w - 1) (masked_cdf Rops w) 0 = 1 /\ Rsorted (masked_cdf Rops w) /\
+  exists v, sample_linear Rops freq (masked_cdf Rops w) x = Some v /\ nth 0 freq 0 <= v <= nth (length freq - 1) freq 0.
+Proof.
+  intros freq w x Hlen Hn Hs Hw HT [Hx0 Hx1].
+  unfold masked_cdf. rewrite zero_R, one_R, at_R, mr_length.
+  set (c := masked_running Rops 0 w) in *. set (T := nth (length w - 1) c 0) in *.
+  cbn [o_div o_mul Rops].
+  assert (Hc : length c = length w) by apply mr_length.
+  assert (Hni : 0 < 1 / T) by (apply Rdiv_lt_0_compat; lra).
+  assert (H0 : nth 0 (map (fun v => v * (1 / T)) c) 0 = 0).
+  { rewrite nth_map_R by lia. unfold c. rewrite mr_first by lia. lra. }
+  assert (H1 : nth (length w - 1) (map (fun v => v * (1 / T)) c) 0 = 1).
+  { rewrite nth_map_R by lia. fold T. field. lra. }
+  assert (Hsort : Rsorted (map (fun v => v * (1 / T)) c)).
+  { apply adj_sorted. rewrite map_length, Hc. intros i Hi. rewrite !nth_map_R by lia.
+    unfold c. rewrite mr_adj by lia. pose proof (Hw i ltac:(lia)).
+    apply Rmult_le_compat_r; lra. }
+  split; [exact H0|]. split; [exact H1|]. split; [exact Hsort|].
+  destruct (sample_linear_range_lemma freq (map (fun v => v * (1 / T)) c) x) as [j [v [Hv [_ [_ [_ Hr]]]]]].
+  - rewrite map_length, Hc. exact Hlen.
+  - rewrite map_length, Hc. exact Hn.
+  - exact Hs.
+  - rewrite map_length, Hc, H0, H1. lra.
+  - exists v. split; assumption.
+Qed.
+
+(* the construction of the pinned commit: the first entry is the (positive) weight of the first bin, and a random
+   number below it is extrapolated to a frequency below the first bin *)
+Lemma mw_cdf : masked_cdf_incl Rops [1; 1; 0] = [1 / 2; 1; 1].
+Proof.
+  unfold masked_cdf_incl. cbn [masked_running_incl length Nat.sub]. rewrite at_R. cbn [nth map o_add o_mul o_div Rops].
+  rewrite zero_R, one_R. f_equal; [field | f_equal; [field | f_equal; field]].
+Qed.
+Lemma mw_loc : locate_in Rops (1 / 4) [1 / 2; 1; 1] = Some 0%nat.
+Proof. unfold locate_in, locate. do 4 locate_step. reflexivity. Qed.
+Lemma sample_masked_incl_refuted_lemma : exists freq w x v, length freq = length w /\ (2 <= length w)%nat /\
+  Rsorted freq /\ (forall i, (i < length w)%nat -> 0 <= nth i w 0) /\ 0 < x <= 1 /\
+  sample_linear Rops freq (masked_cdf_incl Rops w) x = Some v /\ v < nth 0 freq 0.
+Proof.
+  exists [1; 2; 3], [1; 1; 0], (1 / 4). eexists. split; [reflexivity|]. split; [cbn [length]; lia|].
+  split; [apply adj_sorted; cbn [length]; intros [|[|i]] Hi; cbn [nth]; try lia; lra|].
+  split; [cbn [length]; intros [|[|[|i]]] Hi; cbn [nth]; try lia; lra|].
+  split; [lra|]. rewrite mw_cdf. split; [apply sample_linear_eq; exact mw_loc|].
+  unfold lin. cbn [nth]. lra.
+Qed.
